@@ -158,8 +158,11 @@ def interval_domain_ok(cond, fchain, bounds, eps_value=1e-10):
 
 
 def sign_of_ratio(r, bounds, cdef):
-    """+1 / -1 / None for a Ratio whose numerator and denominator are single terms"""
+    """+1 / -1 / None for a Ratio whose numerator and denominator are single terms; ('mixed', symbol) when exactly one
+    odd-power symbol has declared numeric bounds that contain zero or values of both signs while every other factor has
+    a known sign (the coefficient then takes non-positive values for an admissible parameter)"""
     sgn = 1
+    mixed = []
     for poly in (r.n, r.d):
         if len(poly.t) != 1:
             return None
@@ -181,7 +184,12 @@ def sign_of_ratio(r, bounds, cdef):
             if hi is not None and hi < 0:
                 sgn = -sgn
                 continue
+            if lo is not None and hi is not None and lo <= 0 <= hi and losym is None:
+                mixed.append(s_)
+                continue
             return None
+    if mixed:
+        return ('mixed', mixed[0]) if len(mixed) == 1 else None
     return sgn
 
 
@@ -265,6 +273,10 @@ def run(rep):
                                 "transform decreasing by definition)", line=line)
                 else:
                     rep.undecided("R02.c", file, f"{name}._jacobian", cons, f"sign of coefficient {got.coeff} unknown", line=line)
+            elif isinstance(s, tuple):
+                b_ = bounds.get(s[1])
+                rep.violation("R02.c", file, f"{name}._jacobian", cons,
+                              f"coefficient {got.coeff}: the declared bounds [{b_[0]}, {b_[1]}] of {s[1]} admit values <= 0, where the Jacobian is not positive", line=line)
             else:
                 rep.check(s > 0, "R02.c", file, f"{name}._jacobian", cons,
                           f"coefficient {got.coeff} has sign {s}; every other factor is a power of a value made positive by the mask, an exponential or a cosh", line=line)
